@@ -56,6 +56,18 @@ def panic_sites(I, res):
     return out
 
 
+def short_user_iterator(e):
+    """the site is `it.next().expect(..)` / `.unwrap()` on the item of a caller-supplied iterator: it fires only when that
+    iterator yields fewer items than its ExactSizeIterator::len promised (documented panic of the *_fill_iter methods),
+    wherever the expression sits (in the method, its closure, or a helper it was moved into)"""
+    if e.kind == 'call' and (e.callee or '').split('::')[-1] in ('expect', 'unwrap') and 'Option' in (e.callee or '') and e.args:
+        a = e.args[0]
+        return isinstance(a, tuple) and a and a[0] == 'call' and a[1].endswith('Iterator::next') and not a[1].startswith('<')
+    if e.kind in ('diverge', 'panic'):
+        return any(f[0] == 'is' and f[2] == 'None' and isinstance(f[1], tuple) and f[1] and f[1][0] == 'call' and f[1][1].endswith('Iterator::next') and not f[1][1].startswith('<') for f in e.state.facts)
+    return False
+
+
 def min_align_validation(e):
     """the must-facts of the panic site say that the const parameter MIN_ALIGN is not a supported alignment"""
     M = sym('MIN_ALIGN')
@@ -91,6 +103,8 @@ def run(ctx, config='rel-all'):
         for k, evs in sorted(sites.items()):
             if k in JUSTIFIED:
                 ctx.ok('R1', '%s: reachable %s in %s' % (b['meta']['name'], k[1], k[0]), 'justified: ' + JUSTIFIED[k])
+            elif k[1] in ('Option::expect', 'Option::unwrap', 'expect', 'unwrap') and all(short_user_iterator(e) for e in evs):
+                ctx.ok('R1', '%s: reachable %s in %s' % (b['meta']['name'], k[1], k[0]), "justified: fires only when the caller's iterator yields fewer items than its len() promised (documented)")
             elif all(min_align_validation(e) for e in evs):
                 # wherever the two constructor assertions sit (inline, or in a helper they were extracted into): the panic is
                 # reachable only for an unsupported MIN_ALIGN, which C04 requires to be refused with a panic
@@ -304,7 +318,7 @@ DEBUG_JUSTIFIED = [
     ('Bump::new_chunk', r'Assert\(Overflow\(Add', 'allocated_bytes accumulates sizes of live blocks: bounded by the address space'),
     ('Bump::alloc_layout_slow', r'mod\(load\[\*\(\(?(payload\(iter_any|galloc\()', 'the new chunk was requested with an alignment the request alignment divides (C04.O3, A4)'),
     ('Bump::alloc_layout_slow', r'is_some\(phi', 'the retry on the fresh chunk succeeds because the chunk was sized for the request (C01.O5); for align > 16 this needs number theory outside the lemma set (stated as not decided)'),
-    ('Bump::try_alloc_slice_fill_with', r'eq\(&, &\)', 'Layout::for_value(result) == Layout::array::<T>(len): same element type and count'),
+    (r'Bump::(try_)?alloc_slice_\w+', r'eq\(&, &\)', 'Layout::for_value(result) == Layout::array::<T>(len): same element type and count (the owner is a regex: the worker may be inlined into its callers)'),
     ('Bump::try_alloc_with', r'Assert\((Null|Misaligned)PointerDerefer', 'rustc UB check on &mut *p for p returned by try_alloc_layout: non-null and aligned to align_of::<T>() (C04.O2, C01.O2)'),
     ('Bump::try_alloc_try_with', r'Assert\((Null|Misaligned)PointerDerefer', 'rustc UB check on a pointer returned by try_alloc_layout (C04.O2, C01.O2)'),
     ('Bump::try_with_min_align_and_capacity', r"\('lt', '16', 'MIN_ALIGN'\)", 'the required constructor assertion MIN_ALIGN <= CHUNK_ALIGN (C04)'),
@@ -357,7 +371,7 @@ def check_debug(ctx):
     for k, lst in sorted(opened.items()):
         just = None
         for own, rx, why in DEBUG_JUSTIFIED:
-            if k[0] == own and re.search(rx, k[1]):
+            if (k[0] == own or re.fullmatch(own, k[0])) and re.search(rx, k[1]):
                 just = why
         if just:
             ctx.ok('R4', 'debug build: %s, %s' % k, 'not discharged by the lemma library; tabled: ' + just)
